@@ -80,6 +80,8 @@ type hisWritten struct {
 	nasty bool
 	// trailEOL: a stream whose body ends in CR or LF
 	trailEOL bool
+	// lenObj >= 0: the index of the indirect /Length object of this stream in hisDoc.objs
+	lenObj int
 }
 
 type hisDoc struct {
@@ -307,7 +309,7 @@ func hisWriteDoc(r *Rand, kind string) (doc *hisDoc, err error) {
 		if !bytes.HasSuffix(data[:end], []byte("endobj")) {
 			panic("his: Put did not end the object with endobj")
 		}
-		doc.objs = append(doc.objs, hisWritten{ref: ref, start: before, end: end, val: val, needs: -1})
+		doc.objs = append(doc.objs, hisWritten{ref: ref, start: before, end: end, val: val, needs: -1, lenObj: -1})
 	}
 	addStream := func(ref pdf.Reference, before int, val string, body []byte) {
 		data := sink.Bytes()
@@ -322,7 +324,7 @@ func hisWriteDoc(r *Rand, kind string) (doc *hisDoc, err error) {
 			panic("his: stream terminator not found")
 		}
 		end := before + t + len("\nendstream\nendobj")
-		rec := hisWritten{ref: ref, start: before, end: end, val: val, needs: -1, nasty: hisBodyNeedsLength(body),
+		rec := hisWritten{ref: ref, start: before, end: end, val: val, needs: -1, lenObj: -1, nasty: hisBodyNeedsLength(body),
 			trailEOL: len(body) > 0 && (body[len(body)-1] == '\n' || body[len(body)-1] == '\r')}
 		doc.objs = append(doc.objs, rec)
 		// an indirect length object follows directly
@@ -338,7 +340,8 @@ func hisWriteDoc(r *Rand, kind string) (doc *hisDoc, err error) {
 			if !bytes.Contains(data[before:before+t], []byte(fmt.Sprintf("/Length %d %d R", ln, lg))) {
 				panic("his: the object after the stream is not its /Length")
 			}
-			doc.objs = append(doc.objs, hisWritten{ref: pdf.NewReference(uint32(ln), uint16(lg)), start: ls, end: le, val: fmt.Sprintf("i%d;", lv), needs: -1})
+			doc.objs = append(doc.objs, hisWritten{ref: pdf.NewReference(uint32(ln), uint16(lg)), start: ls, end: le, val: fmt.Sprintf("i%d;", lv), needs: -1, lenObj: -1})
+			doc.objs[len(doc.objs)-2].lenObj = len(doc.objs) - 1
 			if hisBodyNeedsLength(body) {
 				doc.objs[len(doc.objs)-2].needs = len(doc.objs) - 1
 			}
@@ -512,7 +515,7 @@ func hisWriteDoc(r *Rand, kind string) (doc *hisDoc, err error) {
 		if e < 0 {
 			break
 		}
-		doc.objs = append(doc.objs, hisWritten{ref: pdf.NewReference(uint32(num), uint16(gen)), start: abs, end: abs + e + 6, isXRef: isX, needs: -1})
+		doc.objs = append(doc.objs, hisWritten{ref: pdf.NewReference(uint32(num), uint16(gen)), start: abs, end: abs + e + 6, isXRef: isX, needs: -1, lenObj: -1})
 		pos = abs + e + 6
 	}
 	// the cross-reference data and the startxref value
@@ -665,6 +668,12 @@ func hisScanOracle2(doc *hisDoc, data []byte, intact int, skipXRefObj bool, tryR
 			return line, "scan-wrong-reference", fmt.Sprintf("object at %d listed as %v, written as %v", o.start, fo.Reference, o.ref), ""
 		}
 		if fo.Broken {
+			if o.lenObj >= 0 {
+				if l := doc.objs[o.lenObj]; l.start < intact && l.end > intact {
+					// the header of the length object is there, its value or endobj is cut off
+					return line, "scan-stream-broken-by-cut-length-object", fmt.Sprintf("complete stream %v at %d is marked broken because its /Length object %v at %d is cut off (ends at %d > %d); before a2d2dfe the extent was recovered from EOL+endstream", o.ref, o.start, l.ref, l.start, l.end, intact), ""
+				}
+			}
 			return line, "scan-complete-broken", fmt.Sprintf("complete object %v at %d is marked broken", o.ref, o.start), ""
 		}
 		if o.val != "" {
